@@ -136,7 +136,7 @@ let predict (c : string) (obs : string) : string * string * bool =
         | _ -> "BAD:unparsable-observation" in
       let nontrivial = n >= 2 && min tokens an >= 2 in
       (pred, v, nontrivial)
-  | [("burst" | "cfgpool"); per; t; a; _n; _spec] ->
+  | ("burst" | "cfgpool") :: per :: t :: a :: ninst :: _spec :: ([] | [_]) ->
       (* no log: the totals C03_conservation / C03_counters / C03_unfired determine *)
       let per = bool_of_field per and tn = int_of_string t and an = int_of_string a in
       (match split_blank obs with
@@ -147,6 +147,10 @@ let predict (c : string) (obs : string) : string * string * bool =
            let pred = Printf.sprintf "ok %d %d 0 0 0 1 0" started (if started = 0 then 0 else want) in
            let v =
              if outcome <> "ok" then "BAD:run-outcome-" ^ outcome
+             (* C03_started: a startup schedule with tokens starts at least one instance (fewer than all of them only
+                with the ammo / the shared profile exhausted, and then the conservation below is what C03_conservation_pool gives) *)
+             else if started = 0 && int_of_string ninst >= 1 then
+               Printf.sprintf "BAD:instances-started started=0 startup-tokens=%s" ninst
              else if started = 0 then "ok"
              else if int_of_string total <> want then
                Printf.sprintf "BAD:conservation fired+discarded=%s min(tokens=%d,ammo=%d)" total tokens an
